@@ -8,7 +8,6 @@ import (
 	"os"
 	"os/exec"
 	"path/filepath"
-	"reflect"
 	"regexp"
 	"sort"
 	"strings"
@@ -93,7 +92,7 @@ func c20GenCalls(r *rand.Rand, g *DocGen, origin string, d1, d2 W, n int) []c20l
 	out := make([]c20lib.Call, 0, n)
 	for i := 0; i < n; i++ {
 		if origin == "overlay" {
-			c := c20lib.Call{M: pick(r, c20lib.OverlayMethods), Path: anyPath(), Layer: pick(r, []string{"base", "top", "nolayer"})}
+			c := c20lib.Call{M: pick(r, c20lib.OverlayMethods), Path: anyPath(), Layer: pick(r, []string{"zbase", "atop", "nolayer"})}
 			switch c.M {
 			case "OverlayDocument.Search":
 				c.V = g.Scalar(r)
@@ -590,5 +589,4 @@ func c20EvalRace(c *Ctx, p c20lib.Case) {
 		after := c20lib.Fingerprint(subj)
 		c.Direct("fingerprint-unchanged(all sequences)", before == after, map[string]any{"diff-at": c20FirstDiff(before, after)})
 	}
-	_ = reflect.TypeOf
 }
